@@ -4,7 +4,10 @@ package props
 
 import (
 	"bytes"
+	"encoding/json"
 	"fmt"
+	wasmkeeper "github.com/CosmWasm/wasmd/x/wasm/keeper"
+	wasmvmtypes "github.com/CosmWasm/wasmvm/types"
 	"reflect"
 	"sort"
 	"strings"
@@ -352,8 +355,8 @@ func TestC11(t *testing.T) {
 			w.f.Exec(&storagetypes.MsgAddClaimer{Creator: a.Bech, ClaimAddress: accs[4].Bech})
 			w.f.Exec(&oracletypes.MsgCreateFeed{Creator: a.Bech, Name: fmt.Sprintf("feed%d", i)})
 			w.f.Exec(&oracletypes.MsgUpdateFeed{Creator: a.Bech, Name: fmt.Sprintf("feed%d", i), Data: `{"price":"1"}`})
-			w.f.Exec(rnstypes.NewMsgRegisterName(a.Bech, fmt.Sprintf("owner%d.jkl", i), 1, "{}", true))
-			w.f.Exec(rnstypes.NewMsgRegisterName(a.Bech, fmt.Sprintf("second%d.jkl", i), 1, "{}", false)) // a second name the primary pointer does not point at
+			w.f.Exec(newMsgRegisterName(a.Bech, fmt.Sprintf("owner%d.jkl", i), 1, "{}", true))
+			w.f.Exec(newMsgRegisterName(a.Bech, fmt.Sprintf("second%d.jkl", i), 1, "{}", false)) // a second name the primary pointer does not point at
 			w.f.Exec(&notiftypes.MsgCreateNotification{Creator: accs[(i+1)%3].Bech, To: a.Bech, Contents: "{}"})
 			w.f.Exec(&notiftypes.MsgBlockSenders{Creator: a.Bech, ToBlock: []string{accs[4].Bech}})
 			w.buyStorage(a, a.Bech, 30, 1_000_000_000, "")
@@ -469,12 +472,13 @@ func TestC11(t *testing.T) {
 		pm := &storagetypes.MsgPostFile{Creator: creator.Bech, Merkle: f.Merkle, FileSize: 21, MaxProofs: 1, Note: "{}"}
 		before := c11Owned(w)
 		cctx, write := w.f.Ctx.CacheContext()
-		sk := w.c.App.StorageKeeper
-		err := wasmbinding.PerformPostFile(&sk, cctx, contract.Addr, pm)
+		custom, jerr := json.Marshal(map[string]interface{}{"post_file": pm})
+		must(jerr)
+		_, _, err := wasmMessenger(w.c.App).DispatchMsg(cctx, contract.Addr, "", wasmvmtypes.CosmosMsg{Custom: custom})
 		if err == nil {
 			write()
 		}
-		w.logf("wasm PerformPostFile contract=%s creator=%s -> %v", short(contract.Bech), short(creator.Bech), err)
+		w.logf("wasm custom message post_file contract=%s creator=%s -> %v", short(contract.Bech), short(creator.Bech), err)
 		if err == nil && creator.Bech != contract.Bech {
 			failf(rt, rec, "C11/wasm-post-in-foreign-name", w.trace, "contract %s posted a file in the name of %s", short(contract.Bech), short(creator.Bech))
 		}
@@ -483,4 +487,44 @@ func TestC11(t *testing.T) {
 		}
 		rec.Case(aimed, ev.Hash(append([]string{"c"}, w.trace...)...), func() interface{} { return w.trace })
 	})
+}
+
+// wasmMessenger builds the messenger the application installs for contracts' custom messages, the way app.go does
+// (wasmbinding.CustomMessageDecorator over the application's keepers). The decorator is called reflectively, its
+// arguments picked from the application's fields by type, so that the harness keeps compiling when the decorator
+// gains or reorders parameters; what the harness relies on is wasmd's Messenger interface.
+func wasmMessenger(app interface{}) wasmkeeper.Messenger {
+	dec := reflect.ValueOf(wasmbinding.CustomMessageDecorator)
+	t := dec.Type()
+	appV := reflect.ValueOf(app).Elem()
+	args := make([]reflect.Value, t.NumIn())
+	for i := range args {
+		pt := t.In(i)
+		for j := 0; j < appV.NumField(); j++ {
+			f := appV.Field(j)
+			if !appV.Type().Field(j).IsExported() {
+				continue
+			}
+			if f.Type() == pt {
+				args[i] = f
+				break
+			}
+			if f.CanAddr() && f.Addr().Type() == pt {
+				args[i] = f.Addr()
+				break
+			}
+		}
+		if !args[i].IsValid() {
+			panic(fmt.Sprintf("harness: no application field of type %s for the wasm message decorator", pt))
+		}
+	}
+	wrap := dec.Call(args)[0].Interface().(func(wasmkeeper.Messenger) wasmkeeper.Messenger)
+	return wrap(refusingMessenger{})
+}
+
+// refusingMessenger stands in for the messenger chain behind the custom one.
+type refusingMessenger struct{}
+
+func (refusingMessenger) DispatchMsg(sdk.Context, sdk.AccAddress, string, wasmvmtypes.CosmosMsg) ([]sdk.Event, [][]byte, error) {
+	return nil, nil, fmt.Errorf("not a custom message of this chain")
 }
